@@ -55,7 +55,7 @@ fn several(seed: u64, idx: u64) -> Out {
     out.cover("several_grid", format!("{} {} loops {}", acc.name(), loops.len(), ["dense", "spatial", "spatial-flattened"][rep]));
     out.count("networks_with_several_loop_connections", 1);
     let params = gen_params(&cfg, &mut rng, -1.0, 1.0).unwrap();
-    let x = random_input(&mut rng, cfg.input);
+    let x = varied_input(&mut rng, cfg.input);
     let net = match build(&cfg, Some(&params)) {
         Ok(n) => n,
         Err(m) => {
@@ -232,7 +232,7 @@ impl Monitor for C17 {
             out.count("ranges_containing_max_pool", 1);
         }
         let params = gen_params(&cfg, &mut rng, -1.0, 1.0).unwrap();
-        let x = random_input(&mut rng, cfg.input);
+        let x = varied_input(&mut rng, cfg.input);
         let net = match build(&cfg, Some(&params)) {
             Ok(n) => n,
             Err(m) => {
